@@ -20,6 +20,12 @@ def run(ctx):
 
     # ---------------------------------------------------------------- C14.1
     run_f = P.body(RUNNER)
+    # the handler invocation (with its timeout) or the auto-checkpoint step extracted into a private helper of
+    # runtime.rs is spliced back in
+    from ..inline import inline_calls, contains
+    _w14 = contains(rx_calls=r'core::ops::function::Fn(Mut|Once)?::call(_mut|_once)?$|ToolRunner::emit_checkpoint_events$|ToolRegistry::get$')
+    run_f = inline_calls(P, run_f, lambda body, callee: callee.startswith('rip_tools::runtime::') and not re.search(r'::(emit_checkpoint_events|files_for_invocation|run)$', callee)
+                         and _w14(body, callee), depth=2, note=ctx.note)
     ctx.touch(run_f)
     ck = run_f.calls(r'ToolRunner::emit_checkpoint_events$')
     if not ck:
@@ -113,8 +119,17 @@ def run(ctx):
     ctx.touch(rw)
     fam = P.closures_of(rw.path)
     apply_cl = [g for g in fam if g.calls(r'^std::fs::(write|remove_file)$')]
+    if not apply_cl:
+        # the apply step as a private fn / method of the crate instead of a closure
+        seen_c = set()
+        for s_ in rw.sites():
+            h = P.fns.get(s_.callee)
+            if h is not None and h.crate == rw.crate and s_.callee not in seen_c and h.calls(r'^std::fs::(write|remove_file)$'):
+                seen_c.add(s_.callee)
+                apply_cl.append(h)
     if len(apply_cl) != 1:
-        raise CheckError('C14.3: expected one apply closure in rewind_to_checkpoint, found %d' % len(apply_cl))
+        raise CheckError('C14.3: expected one apply step (closure or private fn that writes / removes the files) in rewind_to_checkpoint, found %d' % len(apply_cl))
+    ctx.touch(apply_cl[0])
     call = [s for s in rw.sites() if s.callee == apply_cl[0].path]
     if len(call) != 1:
         raise CheckError('C14.3: apply closure call not found')
